@@ -43,8 +43,13 @@ def signature(scn, variant, step):
 
 
 def _ref(a, i, byname):
-    """dimension reference for 1-based position i"""
-    return a.dims[i - 1] if byname else i - 1
+    """dimension reference for 1-based position i: a name, a position, a position counted from the end ("neg"), or positions of
+    which only the last / the first dimension is counted from the end ("mixlast", "mixfirst")"""
+    if byname is True:
+        return a.dims[i - 1]
+    if byname == "neg" or (byname == "mixlast" and i == a.ndim) or (byname == "mixfirst" and i == 1):
+        return i - 1 - a.ndim
+    return i - 1
 
 
 def _apply(a, o, byname, kmap, codec, form):
@@ -109,7 +114,9 @@ def replay(scn):
     a_abs = scn["in"]["a"]
     ops = scn["in"]["ops"]
     for ki, kmap in enumerate(KINDMAPS):
-        for byname in (True, False):
+        for byname in (True, False, "neg", "mixlast", "mixfirst"):
+            if byname not in (True, False) and (ki != 0 or not any(o["op"] in ("transpose", "swapaxes", "rollaxis", "squeeze", "repeat") for o in ops)):
+                continue
             for form in (0, 1, 2):
                 if form == 2 and not any(o["op"] == "broadcast" for o in ops):
                     continue
